@@ -415,6 +415,20 @@ def check_minres(idx: ProgramIndex, rep: Report):
             # x = prod.addcmul_(...) aliases prod; x = f(...) is fresh
             chain_inplace = isinstance(st.value.func, ast.Attribute) and st.value.func.attr.endswith("_")
             fresh[st.targets[0].id] = rn if (chain_inplace and rn) else st.targets[0].id
+    # ... or allocated before the loop for the first iteration and re-allocated in every later one:
+    #   prod = f(x0);  for i in ...:  if i > 0: prod = f(x)      (each iteration still gets a buffer of its own)
+    loop_var = loop_ast.target.id if isinstance(loop_ast, ast.For) and isinstance(loop_ast.target, ast.Name) else None
+    pre_alloc = {st.targets[0].id for st in walk_body(fn) if isinstance(st, ast.Assign) and len(st.targets) == 1
+                 and isinstance(st.targets[0], ast.Name) and isinstance(st.value, ast.Call) and not any(x is st for x in ast.walk(loop_ast))
+                 and not (isinstance(st.value.func, ast.Attribute) and st.value.func.attr.endswith("_"))}
+    for st in loop_ast.body:
+        if isinstance(st, ast.If) and not st.orelse and loop_var is not None and isinstance(st.test, ast.Compare) and len(st.test.ops) == 1 \
+                and isinstance(st.test.left, ast.Name) and st.test.left.id == loop_var and isinstance(st.test.comparators[0], ast.Constant) \
+                and isinstance(st.test.ops[0], (ast.Gt, ast.NotEq, ast.GtE)):
+            for s2 in st.body:
+                if isinstance(s2, ast.Assign) and len(s2.targets) == 1 and isinstance(s2.targets[0], ast.Name) and isinstance(s2.value, ast.Call) \
+                        and s2.targets[0].id in pre_alloc and not (isinstance(s2.value.func, ast.Attribute) and s2.value.func.attr.endswith("_")):
+                    fresh.setdefault(s2.targets[0].id, s2.targets[0].id)
     rot = [st for st in loop_ast.body if isinstance(st, ast.Assign) and len(st.targets) == 1 and (
         (isinstance(st.targets[0], ast.Tuple) and isinstance(st.value, ast.Tuple) and all(
             isinstance(e, ast.Name) for e in st.targets[0].elts + st.value.elts))
